@@ -361,7 +361,8 @@ def run(ctx):
     # (1) all ordered pairs of the core vocabulary
     n = len(core)
     core_pairs = [(i, j) for i in range(n) for j in range(n)]
-    res.exhaustive = True
+    res.exhaustive = False   # only stream (1), the core pairs, is exhaustive: said in `rule` and in the note below
+    res.notes.append("exhaustive sub-stream: all %d ordered pairs of the %d-record core vocabulary; every other stream is structured or sampled" % (len(core_pairs), n))
     # (2) sampled pairs of the extended vocabulary
     m = len(ext)
     per = max(1, budget // m)
@@ -396,6 +397,22 @@ def run(ctx):
                 idxs.append(rng.randrange(np_))
         probe = rng.choice([base] + idxs)
         list_cases.append((idxs, probe))
+    # (3b) whole replies: 2-5 answers that are different records, each with 0-3 additionals drawn from a small shared pool (so that
+    # two answers SHARE an additional, possibly in another spelling / with another TTL or flush bit, and an additional may be one of
+    # the answers).  The library de-duplicates across answers with its own `sending` set -- within one answer's additionals the
+    # Python set has already done it, which is why replies with a single answer cannot see that statement.
+    reply_cases = []
+    for _ in range(400 if ctx["tier"] != "thorough" else 4000):
+        base = rng.randrange(np_)
+        near_ = list(range(max(0, base - 12), min(np_, base + 13)))
+        answers, seen_id = [], set()
+        for j in rng.sample(near_, min(len(near_), rng.randint(2, 5))):
+            if spec_ident(pool[j]) not in seen_id:
+                seen_id.add(spec_ident(pool[j]))
+                answers.append(j)
+        shared = [rng.choice(near_) for _ in range(2)] + [rng.randrange(np_)]
+        shared += [rng.choice(twins[spec_ident(pool[x])]) for x in shared[:2]] + [rng.choice(answers)]
+        reply_cases.append([(a, [rng.choice(shared) for _ in range(rng.randint(0, 3))]) for a in answers])
 
     lines = [pair_line(core[i], core[j]) for i, j in core_pairs]
     lines += [pair_line(spell[i], spell[j]) for i, j in spell_pairs]
@@ -406,6 +423,10 @@ def run(ctx):
     # c20d: answers = [probe], additionals = the stored list
     lines += ["c20d %s 1 %s %d %s" % (tbl([s for i in ix + [p] for s in strings_of(pool[i])]), line(pool[p]), len(ix), " ".join(line(pool[i]) for i in ix))
               for ix, p in list_cases]
+    for rc in reply_cases:
+        adds_ = [x for _a, xs in rc for x in xs]
+        lines.append("c20d %s %d %s %d %s" % (tbl([s for i in [a for a, _ in rc] + adds_ for s in strings_of(pool[i])]), len(rc),
+                                               " ".join(line(pool[a]) for a, _ in rc), len(adds_), " ".join(line(pool[x]) for x in adds_)))
     model = None
     if ctx["driver_ok"]:
         try:
@@ -511,6 +532,35 @@ def run(ctx):
                 res.disagree("c20d", case, n_add, mm)
     off += 3 * L
 
+    for idx, rc in enumerate(reply_cases):
+        res.evaluations += 1
+        case = {"reply": [{"answer": list(map(repr, pool[a])), "additionals": [list(map(repr, pool[x])) for x in xs]} for a, xs in rc]}
+        desc_of, given = {}, {}
+        for a, xs in rc:
+            ao = build(pool[a])
+            desc_of[id(ao)] = pool[a]
+            xo = [build(pool[x]) for x in xs]
+            for o, x in zip(xo, xs):
+                desc_of[id(o)] = pool[x]
+            given[ao] = set(xo)
+        out = construct_outgoing_multicast_answers(given)
+        ans_classes = [spec_ident(pool[a]) for a, _ in rc]
+        want = sorted({spec_ident(pool[x]) for _a, xs in rc for x in xs} - set(ans_classes), key=repr)
+        sent_ans = sorted((spec_ident(desc_of[id(r)]) if id(r) in desc_of else ("unknown", repr(r)) for r, _t in out.answers), key=repr)
+        sent = sorted((spec_ident(desc_of[id(r)]) if id(r) in desc_of else ("unknown", repr(r)) for r in out.additionals), key=repr)
+        if sent_ans != sorted(ans_classes, key=repr) or sent != want:
+            res.violate("C20:reply-duplicate-removal:%d-answers" % len(rc),
+                        "a reply with %d answers whose additionals carry %d distinct other records is sent with %d answers and %d additionals (%s)"
+                        % (len(rc), len(want), len(out.answers), len(out.additionals),
+                           "a record is sent twice" if len(sent) > len(set(sent)) or len(sent_ans) > len(set(sent_ans)) else
+                           "an additional that is also an answer is sent" if set(sent) & set(ans_classes) else "a record is missing"), case)
+        res.nontriv("reply-multi/%d/%d/%d" % (len(rc), len(want), sum(len(xs) for _a, xs in rc)))
+        if model is not None:
+            mm = model[off + idx].strip()
+            if mm != str(len(out.additionals)):
+                res.disagree("c20d", case, len(out.additionals), mm)
+    off += len(reply_cases)
+
     sub = list(range(0, n, max(1, n // 160)))
     near = [(core[i], core[j]) for i in sub for j in sub]
     for i in range(0, n - 1, 3):
@@ -539,9 +589,30 @@ def run(ctx):
             res.violate("C20:cache-duplicate:%s" % kn, "adding the same record twice leaves %d copies in the cache" % len(held), case)
         if same:
             res.nontriv("cache/%s/%s" % (kn, da[1] != db[1]))
+        # removal (a goodbye, an expiry) through the OTHER object: the same record is gone, another record stays
+        cache = DNSCache()
+        a2 = build(da)
+        cache.async_add_records([a2])
+        try:
+            cache.async_remove_records([b])
+        except KeyError:
+            pass  # removing a record that is not cached: C05's business
+        left = cache.get(a2) is not None
+        if left != (not same):
+            res.violate("C20:cache-remove:%s" % kn, "removing %s record leaves the cached record %s" % ("the same" if same else "a different", "in the cache" if left else "removed"), case)
+        # RFC 6762 10.2 sweep: a cached unique record older than 1 s survives iff the response carries the same record
+        if type(a) is type(b):
+            cache = DNSCache()
+            a3 = build(da)
+            cache.async_add_records([a3])
+            cache.async_mark_unique_records_older_than_1s_to_expire({(a3.name, a3.type, a3.class_)}, [b], da[5] + 5000.0)
+            swept = a3.ttl != da[4] or a3.created != da[5]
+            if swept != (not same):
+                res.violate("C20:cache-unique-sweep:%s" % kn, "a response carrying %s record %s the cached record for expiry" % ("the same" if same else "a different", "marks" if swept else "does not mark"), case)
     wire_stream(res, core)
     history_stream(res, qs)
     handled_stream(res)
+    mutator_stream(res, core)
     # questions are never equal to records
     for q in q_obj[:20]:
         for r in core_obj[:40]:
@@ -710,6 +781,99 @@ def handled_stream(res):
                                         "after QueryHandler.async_response the known answers %s a record equal to our own %s, the DNSRRSet look-up says %s"
                                         % ("contain" if lin else "do not contain", type(r).__name__, look.get(r) is not None), dict(case, own=repr(r)))
                     res.nontriv("handled/%s/%s/%s/%s" % (scope, qtype, qclass >= 32768, with_known))
+
+
+def _same_question(res, where, q, name, type_, case):
+    """`q` (an object that went through a library path) must still be THE question (name, type, IN): equal to, hashing like and
+    suppressed in the question history by a freshly built one, with or without the QU bit, in either spelling"""
+    from zeroconf._dns import DNSQuestion
+    from zeroconf._history import QuestionHistory
+
+    rb = _rebuilt(q)
+    if hash(q) != hash(rb) or not (q == rb):
+        res.violate("C20:mutated-after-construction:DNSQuestion", "%s: the question no longer has the hash / identity of a question constructed from its "
+                    "present attributes (an identity attribute was written after construction; __hash__ is cached)" % where, dict(case, question=repr(q), class_=q.class_))
+    for nm in (name, name.upper()):
+        for c in (IN, IN | UNIQUE):
+            f = DNSQuestion(nm, type_, c)
+            h = QuestionHistory()
+            h.add_question_at_time(q, 1000.0, set())
+            h2 = QuestionHistory()
+            h2.add_question_at_time(f, 1000.0, set())
+            ok = q == f and f == q and hash(q) == hash(f) and h.suppresses(f, 1100.0, set()) and h2.suppresses(q, 1100.0, set()) and f in {q} and q in {f}
+            res.evaluations += 1
+            if not ok:
+                res.violate("C20:question-identity-after-library-path", "%s: the question is no longer the same question as DNSQuestion(%r, %d, %d) (equality %s, "
+                            "hashes %s, question history %s/%s)" % (where, nm, type_, c, q == f, "equal" if hash(q) == hash(f) else "differ",
+                                                                      h.suppresses(f, 1100.0, set()), h2.suppresses(q, 1100.0, set())),
+                            dict(case, question=repr(q), class_=q.class_, fresh=[nm, type_, c]))
+
+
+def mutator_stream(res, core):
+    """identity after the PUBLIC MUTATORS and after the library's own question construction paths (oracle only).  Nothing the
+    library does to a question or record after construction -- the `DNSQuestion.unicast` setter (browser.py: `generate_service_query`,
+    info.py: `_add_question_with_known_answers`), `DNSRecord.set_created_ttl` / `reset_ttl` -- may change what it is or leave a
+    stale cached hash."""
+    import types as _types
+
+    from zeroconf import DNSCache, ServiceInfo
+    from zeroconf._dns import DNSQuestion, DNSQuestionType
+    from zeroconf._history import QuestionHistory
+
+    # (a) the setter itself
+    for name in ("_http._tcp.local.", "_HTTP._TCP.Local."):
+        for t in (T_PTR, T_ANY):
+            for c in (IN, IN | UNIQUE):
+                for v in (True, False):
+                    q = DNSQuestion(name, t, c)
+                    q.unicast = v
+                    _same_question(res, "after `question.unicast = %s`" % v, q, name, t, {"built": [name, t, c], "then": "question.unicast = %s" % v})
+                    res.nontriv("setter/%s/%s" % (c >= 32768, v))
+    # (b) the browser's and the lookup's question construction
+    try:
+        from zeroconf._services.browser import generate_service_query
+
+        for multicast in (True, False):
+            for qt in (None, DNSQuestionType.QU, DNSQuestionType.QM):
+                zc = _types.SimpleNamespace(cache=DNSCache(), question_history=QuestionHistory())
+                outs = generate_service_query(zc, 5000.0, {"_http._tcp.local."}, multicast, qt)
+                for out in outs:
+                    for q in out.questions:
+                        _same_question(res, "generate_service_query(multicast=%s, question_type=%s)" % (multicast, qt), q, "_http._tcp.local.", T_PTR,
+                                       {"path": "browser.generate_service_query", "multicast": multicast, "question_type": str(qt)})
+                res.nontriv("browser-query/%s/%s/%d" % (multicast, qt, sum(len(o.questions) for o in outs)))
+        info = ServiceInfo("_http._tcp.local.", "foo._http._tcp.local.", port=80, server="host.local.")
+        for qt in (DNSQuestionType.QU, DNSQuestionType.QM):
+            zc = _types.SimpleNamespace(cache=DNSCache(), question_history=QuestionHistory())
+            out = info._generate_request_query(zc, 5000.0, qt)
+            for q in out.questions:
+                _same_question(res, "ServiceInfo._generate_request_query(question_type=%s)" % qt, q, q.name, q.type, {"path": "ServiceInfo._generate_request_query", "question_type": str(qt)})
+            res.nontriv("lookup-query/%s/%d" % (qt, len(out.questions)))
+    except Exception as ex:  # noqa: BLE001 - browser / lookup are other properties' business; here only vehicles
+        res.notes.append("C20 mutator stream: library question paths not exercised: %r" % ex)
+    # (c) record mutators: TTL and creation time are not identity
+    seen = set()
+    for d in core:
+        if (d[0], d[2]) in seen:
+            continue
+        seen.add((d[0], d[2]))
+        for mut in ("set_created_ttl", "reset_ttl"):
+            res.evaluations += 1
+            r, f = build(d), build(d)
+            try:
+                if mut == "set_created_ttl":
+                    r.set_created_ttl(9000.0, 7)
+                else:
+                    r.reset_ttl(build(D(d[0], d[1], d[2], d[3], 77, 9000.0, *d[6])))
+            except Exception as ex:  # noqa: BLE001
+                res.notes.append("C20 mutator stream: %s raised %r" % (mut, ex))
+                continue
+            rb = _rebuilt(r)
+            if not (r == f and f == r and hash(r) == hash(f) and r in {f} and hash(r) == hash(rb) and r == rb):
+                res.violate("C20:mutated-after-construction:%s" % type(r).__name__, "after `%s` the record is no longer the same record as one built from the "
+                            "same constructor arguments (TTL / creation time are not identity), or its cached hash is stale" % mut,
+                            {"built": list(map(repr, d)), "then": mut, "object": repr(r)})
+            res.nontriv("record-mutator/%s/%s" % (d[0], mut))
 
 
 def wire_stream(res, core):
